@@ -13,7 +13,7 @@ from checks import xref_common as C
 
 PROPERTY = "C13"
 LEVEL = "exploration"
-RULE = ("every body of <= 2 (thorough <= 3) items over a 149-item reference alphabet + 150 extended single items, one generated "
+RULE = ("every body of <= 2 (thorough <= 3) items over a 169-item reference alphabet + 160 extended single items, one generated "
         "program per body; non-trivial = the body contains at least one invoke; distinct by construction (the sequence is the "
         "enumeration index)")
 ASSUMPTIONS = ["invoke on an array-of-primitive receiver is skipped by design and is not in the alphabet",
@@ -32,7 +32,7 @@ MANIFEST = {
             "class-level xrefs / get_call_graph are compared edge by edge, offset by offset and by object identity with the "
             "relation derived from the generating model; complete for the stated bound.",
     "note": "Trusted: gen/dexgen.py, gen/dalvik.py, ref/xref.py. Receivers that are arrays of primitives are out of scope. "
-            "Length-3 bodies are analysed 149 at a time as sibling methods of one class.",
+            "Length-3 bodies are analysed 169 at a time as sibling methods of one class.",
 }
 
 
